@@ -6,6 +6,7 @@ package forksmon
 
 import (
 	"fmt"
+	"github.com/piotrnar/gocoin/lib/btc"
 	"os"
 	"strings"
 	"time"
@@ -135,6 +136,9 @@ func ChildFor(prop string, seed int64, tier, cfgName, stateFile string, trees in
 		if !OneTree(s, run, r, t) {
 			return
 		}
+		if r.Intn(3) == 0 && !operatorCommands(s, run, r, cfg) {
+			return
+		}
 	}
 	if d := chainsim.DiffUTXO(s.Ref.Utxo, s.Ref.ReplayTip()); d != "" {
 		run.Inconclusive("reference self-check failed: %s", d)
@@ -150,6 +154,94 @@ func ChildFor(prop string, seed int64, tier, cfgName, stateFile string, trees in
 		run.Sample(map[string]interface{}{"config": cfg.Name, "final_height": s.Ref.Tip.Height, "reorgs": s.Ref.Reorgs, "failed_reorgs": s.Ref.FailedReorgs,
 			"journal_tail": lastN(s.Log, 16)})
 	}
+}
+
+// operatorCommands: what the text UI lets the operator do between blocks. "undo" (Chain.UndoLastBlock) one to three times,
+// then "redo" as often (the block is read back from the block store and committed on top of the tip, as redo_block and
+// LocalAcceptBlock do); "purge" (UnspentDB.PurgeUnspendable(true)) on a node that does not purge by itself. After every
+// command the tip and the full UTXO dump are compared with the reference: the set after an undo is the replay of the
+// parent, after the redos it is what it was.
+func operatorCommands(s *chainsim.Sim, run *vlib.Run, r *vlib.Rand, cfg Config) bool {
+	ch := s.N.Ch
+	cmp := func(what string, want *refchain.Node) bool {
+		th, _ := s.N.Tip()
+		if th != want.Hash {
+			run.Violation("operator/"+what+"/tip", fmt.Sprintf("after %s the tip is %s, expected %s (height %d)", what, th, want.Hash, want.Height),
+				map[string]interface{}{"journal_tail": lastN(s.Log, 20)})
+			return false
+		}
+		wu, ok := s.Ref.UtxoAt(want.Hash)
+		if !ok {
+			run.Inconclusive("operator commands: reference cannot replay %s", want.Hash)
+			return false
+		}
+		if d := chainsim.DiffNodeUTXO(s.N.DumpUTXO(), wu); d != "" {
+			run.Violation("operator/"+what+"/utxo", "after "+what+" the UTXO set differs from the replay of the tip: "+d,
+				map[string]interface{}{"journal_tail": lastN(s.Log, 20), "tip": want.Hash.String()})
+			return false
+		}
+		run.Inc("operator_command_states_compared")
+		return true
+	}
+	if !cfg.Purge && !chainsim.PurgedByHand && r.Intn(3) == 0 {
+		ch.Unspent.PurgeUnspendable(true)
+		chainsim.PurgedByHand = true
+		run.Inc("operator_purge_commands")
+		s.Log = append(s.Log, "operator: purge")
+		if !cmp("purge", s.Ref.Tip) {
+			return false
+		}
+	}
+	k := 1 + r.Intn(3)
+	var undone []*refchain.Node
+	at := s.Ref.Tip
+	for i := 0; i < k && at.Height > 102; i++ {
+		ch.UndoLastBlock()
+		undone = append(undone, at)
+		at = at.Parent
+		s.Log = append(s.Log, "operator: undo -> "+at.Hash.String())
+		run.Inc("operator_undo_commands")
+		if !cmp("undo", at) {
+			return false
+		}
+	}
+	for i := len(undone) - 1; i >= 0; i-- {
+		n := undone[i]
+		hash := btc.NewUint256(n.Hash[:])
+		node := ch.BlockIndex[hash.BIdx()]
+		if node == nil {
+			run.Violation("operator/redo/unknown-block", "the block that was undone is no longer in the block index", map[string]interface{}{"block": n.Hash.String()})
+			return false
+		}
+		crec, _, er := ch.Blocks.BlockGetInternal(hash, true)
+		if er != nil {
+			run.Violation("operator/redo/block-not-readable", "the block that was undone cannot be read from the block store: "+er.Error(), map[string]interface{}{"block": n.Hash.String()})
+			return false
+		}
+		bl, er := btc.NewBlock(crec.Data)
+		if er != nil {
+			run.Violation("operator/redo/block-undecodable", "the block that was undone cannot be decoded: "+er.Error(), map[string]interface{}{"block": n.Hash.String()})
+			return false
+		}
+		bl.Height = node.Height
+		ch.ApplyBlockFlags(bl)
+		if er = bl.BuildTxList(); er != nil {
+			run.Violation("operator/redo/block-undecodable", "BuildTxList of the block that was undone fails: "+er.Error(), map[string]interface{}{"block": n.Hash.String()})
+			return false
+		}
+		bl.Trusted.Clr()
+		bl.LastKnownHeight = s.Ref.Tip.Height
+		if er = ch.CommitBlock(bl, node); er != nil {
+			run.Violation("operator/redo/refused", "committing the undone block again fails: "+er.Error(), map[string]interface{}{"block": n.Hash.String(), "journal_tail": lastN(s.Log, 20)})
+			return false
+		}
+		s.Log = append(s.Log, "operator: redo -> "+n.Hash.String())
+		run.Inc("operator_redo_commands")
+		if !cmp("redo", n) {
+			return false
+		}
+	}
+	return true
 }
 
 func lastN(l []string, n int) []string {
